@@ -140,7 +140,7 @@ def finish_proof(ctx, st):
             ctx.violation('theorem %s depends on axioms %s' % (t, extra), {'stage': 'axioms', 'theorem': t, 'axioms': extra}, {'stage': 'axioms', 'theorem': t}, found_input=False)
     return ok and st['make_ok']
 
-def run_property(ctx, module, vo, files, build_scripts, search, what):
+def run_property(ctx, module, vo, files, build_scripts, search, what, always=None):
     """build_scripts(ctx, scale) -> {build: lines};  search(ctx, scale, hints) -> list of (desc, replay, key) concrete failures."""
     st = coq.proof_stage(ctx, module, vo, files)
     proofs_ok = finish_proof(ctx, st)
@@ -160,6 +160,14 @@ def run_property(ctx, module, vo, files, build_scripts, search, what):
         ctx.violation('%s: the API call %s returns %s, which is not a valid element (build %s)' % (what.split(' is no longer')[0], l[:100], o[:100], b),
                       {'stage': 'search', 'build': b, 'script': [l], 'output': [o]}, {'class': 'invalid_operand', 'build': b, 'op': l.split()[0]}, found_input=True)
         if len(seen) >= 4: break
+    # predicates evaluated on every run (operations without a model op: vlib/surface.py)
+    if always is not None:
+        try:
+            n_a, f_a = always(ctx, scale)
+            ctx.cov['evaluations'] += n_a; ctx.cov['distinct_nontrivial'] += n_a
+            for desc, replay, key in f_a[:8]: ctx.violation(desc, {'stage': 'search', **replay}, key, found_input=True)
+        except RuntimeError as e:
+            ctx.violation('harness failed: %s' % str(e)[:300], {'stage': 'build', 'log': str(e)[-3000:]}, {'stage': 'build'}, found_input=False)
     ctx.cov['rule'] = ('structured inputs named by the property quantifier (boundary field values, near-miss strings, both coset '
                        'representatives, projective rescalings, identity representatives, P/-P/P+P pairs) plus seeded random fill; a case is '
                        'non-trivial when some operand is not 0/1/identity; distinct by (build, op line)')
